@@ -190,21 +190,104 @@ Section Proofs.
     destruct (py_attr_lookup (pm_attrs m) name) as [[v|e]|]; reflexivity.
   Qed.
 
-  (* whenever all(...) of NoneFilter answers, the answer is "every listed attribute is present and not None" *)
+  Lemma reads_ok_lookup m name e :
+    attr_reads_ok m = true -> py_attr_lookup (pm_attrs m) name = Some (Raise e) ->
+    catches [HPy TypeError; HPy ValueError] e = true.
+  Proof.
+    unfold attr_reads_ok. rewrite forallb_forall. intros H Hl.
+    exact (H _ (lookup_In _ _ _ Hl)).
+  Qed.
+
+  (* _attr_or_none(msg, name), case by case *)
+  Lemma attr_or_none_cases m name :
+    attr_or_none m name =
+    match py_attr_lookup (pm_attrs m) name with
+    | None => Ok ANone
+    | Some (Ok v) => Ok v
+    | Some (Raise e) =>
+      if catches [HPy AttributeError] e then Ok ANone
+      else if catches [HPy TypeError; HPy ValueError] e then Ok ANone else Raise e
+    end.
+  Proof.
+    unfold attr_or_none. rewrite getattr_d_cases. unfold try_except.
+    destruct (py_attr_lookup (pm_attrs m) name) as [[v|e]|]; try reflexivity.
+    destruct (catches [HPy AttributeError] e); reflexivity.
+  Qed.
+
+  (* an attribute that is present and not None is read as its value *)
+  Lemma attr_or_none_present m name :
+    present_not_none m name = true -> exists v, attr_or_none m name = Ok v /\ py_is_not_none v = true.
+  Proof.
+    rewrite attr_or_none_cases. unfold present_not_none.
+    destruct (py_attr_lookup (pm_attrs m) name) as [[[|q|t]|e]|]; try discriminate; intros _; eexists; split; reflexivity.
+  Qed.
+
+  (* whenever all(...) of NoneFilter answers, the answer is "every listed attribute is present and not None"
+     -- for EVERY message, whatever its getters raise *)
   Lemma none_all_sound m attrs b : none_all m attrs = Ok b -> forallb (present_not_none m) attrs = b.
   Proof.
     revert b. induction attrs as [|a r IH]; intros b; simpl; [intros H; injection H as <-; reflexivity|].
-    rewrite getattr_d_cases. unfold present_not_none, bind.
+    rewrite attr_or_none_cases. unfold present_not_none, bind.
     destruct (py_attr_lookup (pm_attrs m) a) as [[[|q|t]|e]|].
     - simpl. intros H; injection H as <-; reflexivity.
     - simpl. apply IH.
     - simpl. apply IH.
-    - destruct (catches [HPy AttributeError] e); simpl; [intros H; injection H as <-; reflexivity | discriminate].
+    - destruct (catches [HPy AttributeError] e); [simpl; intros H; injection H as <-; reflexivity|].
+      destruct (catches [HPy TypeError; HPy ValueError] e); simpl; [intros H; injection H as <-; reflexivity | discriminate].
     - simpl. intros H; injection H as <-; reflexivity.
   Qed.
 
-  (* ... and it does answer when no read raises *)
-  Lemma none_all_total m attrs : attr_reads_total m = true -> exists b, none_all m attrs = Ok b.
+  (* ... and it does answer when every read returns a value or raises TypeError / ValueError *)
+  Lemma none_all_total m attrs : attr_reads_ok m = true -> exists b, none_all m attrs = Ok b.
+  Proof.
+    intros Ht. induction attrs as [|a r IH]; simpl; [eexists; reflexivity|].
+    rewrite attr_or_none_cases. unfold bind.
+    destruct (py_attr_lookup (pm_attrs m) a) as [[v|e]|] eqn:El.
+    - destruct (py_is_not_none v); [exact IH | eexists; reflexivity].
+    - rewrite (reads_ok_lookup m a e Ht El). destruct (catches [HPy AttributeError] e); simpl; eexists; reflexivity.
+    - simpl. eexists; reflexivity.
+  Qed.
+
+  (* a listed computed attribute that cannot be evaluated for the message: whenever the filter answers, the answer
+     is "not passed" *)
+  Lemma none_unevaluable_not_passed m attrs name e b :
+    In name attrs -> py_attr_lookup (pm_attrs m) name = Some (Raise e) ->
+    filter_keep dist (NoneFilter attrs) m = Ok b -> b = false.
+  Proof.
+    intros Hin Hl Hk. simpl in Hk. unfold none_body in Hk. apply none_all_sound in Hk. subst b.
+    apply not_true_is_false. intros Hall. rewrite forallb_forall in Hall. specialize (Hall name Hin).
+    unfold present_not_none in Hall. rewrite Hl in Hall. discriminate.
+  Qed.
+
+  (* all() stops at the first attribute that is absent or None: what comes after it is not read *)
+  Lemma none_all_short_circuit m pre a post :
+    forallb (present_not_none m) pre = true ->
+    (py_attr_lookup (pm_attrs m) a = None \/ py_attr_lookup (pm_attrs m) a = Some (Ok ANone)) ->
+    none_all m (pre ++ a :: post) = Ok false.
+  Proof.
+    intros Hpre Ha. induction pre as [|p pre IH]; simpl in *.
+    - rewrite attr_or_none_cases. destruct Ha as [-> | ->]; reflexivity.
+    - apply andb_true_iff in Hpre. destruct Hpre as [Hp Hpre].
+      destruct (attr_or_none_present m p Hp) as [v [-> Hv]]. simpl. rewrite Hv. apply IH. exact Hpre.
+  Qed.
+
+  (* what the repair does NOT absorb: a getter raising anything but AttributeError / TypeError / ValueError, reached
+     after attributes that are present and not None, still kills the generator.  No decoded message has such a
+     getter ([attr_reads_ok], checked by the harness on every decoded message); synthetic objects tie this to the code. *)
+  Lemma none_other_exception_escapes m pre name post e :
+    forallb (present_not_none m) pre = true ->
+    py_attr_lookup (pm_attrs m) name = Some (Raise e) ->
+    catches [HPy AttributeError] e = false -> catches [HPy TypeError; HPy ValueError] e = false ->
+    filter_keep dist (NoneFilter (pre ++ name :: post)) m = Raise e.
+  Proof.
+    intros Hpre Hl H1 H2. simpl. unfold none_body. induction pre as [|p pre IH]; simpl in Hpre |- *.
+    - rewrite attr_or_none_cases, Hl, H1, H2. reflexivity.
+    - apply andb_true_iff in Hpre. destruct Hpre as [Hp Hpre].
+      destruct (attr_or_none_present m p Hp) as [v [-> Hv]]. simpl. rewrite Hv. apply IH. exact Hpre.
+  Qed.
+
+  (* the unrepaired all(getattr(msg, attr, None) is not None ...) answered only when no getter raised *)
+  Lemma none_all_unrepaired_total m attrs : attr_reads_total m = true -> exists b, none_all_unrepaired m attrs = Ok b.
   Proof.
     intros Ht. induction attrs as [|a r IH]; simpl; [eexists; reflexivity|].
     rewrite getattr_d_cases. unfold bind.
@@ -294,7 +377,7 @@ Section Proofs.
 
   (* "no decodable message makes a filter raise": the five classes minus the user function are total *)
   Theorem no_raise f m :
-    builtin f = true -> coords_numeric m = true -> attr_reads_total m = true -> exists b, filter_keep dist f m = Ok b.
+    builtin f = true -> coords_numeric m = true -> attr_reads_ok m = true -> exists b, filter_keep dist f m = Ok b.
   Proof.
     destruct f as [ff|attrs|types|ref d|a b0 c d]; simpl; intros Hb Hc Hr; try discriminate.
     - apply none_all_total. exact Hr.
@@ -304,7 +387,7 @@ Section Proofs.
   Qed.
 
   Corollary keep_builtin f m :
-    builtin f = true -> coords_numeric m = true -> attr_reads_total m = true ->
+    builtin f = true -> coords_numeric m = true -> attr_reads_ok m = true ->
     filter_keep dist f m = Ok (crit_satisfies dist (criterion_of f) m).
   Proof.
     intros Hb Hc Hr. destruct (no_raise f m Hb Hc Hr) as [b Hk]. rewrite Hk. f_equal. symmetry.
@@ -374,7 +457,7 @@ Section Proofs.
     forall m, In m xs -> forall ff, In (AttributeFilter ff) fs -> exists b, ff m = Ok b.
 
   Lemma user_total_chain_total fs xs :
-    forallb coords_numeric xs = true -> forallb attr_reads_total xs = true ->
+    forallb coords_numeric xs = true -> forallb attr_reads_ok xs = true ->
     user_functions_total fs xs -> chain_total fs xs.
   Proof.
     intros Hc Hr Hu m Hm f Hf. rewrite forallb_forall in Hc, Hr.
@@ -384,7 +467,7 @@ Section Proofs.
 
   (* chains of built-in filters over decoded messages: no side condition left *)
   Lemma builtin_chain_total fs xs :
-    forallb builtin fs = true -> forallb coords_numeric xs = true -> forallb attr_reads_total xs = true ->
+    forallb builtin fs = true -> forallb coords_numeric xs = true -> forallb attr_reads_ok xs = true ->
     chain_total fs xs.
   Proof.
     intros Hb Hc Hr m Hm f Hf. rewrite forallb_forall in Hb, Hc, Hr. apply no_raise; auto.
@@ -421,7 +504,7 @@ Section Proofs.
     filters <> [] -> Permutation filters filters' ->
     map decode stream = map Ok xs ->
     forallb coords_numeric xs = true ->
-    forallb attr_reads_total xs = true ->
+    forallb attr_reads_ok xs = true ->
     user_functions_total filters xs ->
     let out := conj_filter dist (map criterion_of filters) xs in
     (* no filter raises *)
@@ -457,6 +540,25 @@ Section Proofs.
     filter_keep dist (DistanceFilter ref d) truncated_report = Ok true /\
     filter_keep dist (GridFilter a b c e) truncated_report = Ok true.
   Proof. repeat split. Qed.
+
+  (* the unchanged NoneFilter: a type 18 report cut before its radio field ([filter_truncated_type18], Model/Filter.v)
+     made it raise TypeError for each of the three computed attributes -- unless an earlier listed attribute was None
+     (all() stops there); the repaired one does not pass the message.  The message has the decoded shape, and it is
+     NOT of the shape under which the unrepaired filter was total. *)
+  Lemma nonefilter_unrepaired_raises :
+    let m := filter_truncated_type18 in
+    none_body_unrepaired ["is_sotdma"%string] m = Raise (Py TypeError) /\
+    none_body_unrepaired ["is_itdma"%string] m = Raise (Py TypeError) /\
+    none_body_unrepaired ["communication_state_raw"%string] m = Raise (Py TypeError) /\
+    none_body_unrepaired ["mmsi"%string; "is_sotdma"%string] m = Raise (Py TypeError) /\
+    none_body_unrepaired ["course"%string; "is_sotdma"%string] m = Ok false /\
+    filter_keep dist (NoneFilter ["is_sotdma"%string]) m = Ok false /\
+    filter_keep dist (NoneFilter ["is_itdma"%string]) m = Ok false /\
+    filter_keep dist (NoneFilter ["communication_state_raw"%string]) m = Ok false /\
+    filter_keep dist (NoneFilter ["mmsi"%string; "is_sotdma"%string]) m = Ok false /\
+    filter_keep dist (NoneFilter ["mmsi"%string; "MAX_COMM_STATE_VALUE"%string]) m = Ok true /\
+    coords_numeric m = true /\ attr_reads_ok m = true /\ attr_reads_total m = false.
+  Proof. vm_compute. repeat split. Qed.
 End Proofs.
 
 (* ---- the attribute sets of the message classes (regenerated tables) --------------------------------------- *)
